@@ -11,11 +11,14 @@ git -C /repo worktree add -q --detach $WT HEAD || exit 2
 export VERIF_EVIDENCE_DIR=/tmp/seedrun-evidence VERIF_NEWREPLAY_DIR=/tmp/seedrun-replays VERIF_REPO=$WT
 rm -rf $VERIF_EVIDENCE_DIR $VERIF_NEWREPLAY_DIR
 SEEDS=${@:-$(ls seeded)}
-for s in $SEEDS; do
+for spec in $SEEDS; do
+  s=${spec%%:*}
   d=seeded/$s
   [ -f $d/patch.diff ] || continue
   if grep -q '"status": "retired"' $d/meta.json 2>/dev/null; then echo "$s retired"; continue; fi
   ID=${s%%-*}
+  CROSS=""
+  case $spec in *:*) ID=${spec##*:}; CROSS=1;; esac
   git -C $WT checkout -q -- . && git -C $WT apply $(readlink -f $d/patch.diff) || { echo "$s patch-does-not-apply"; continue; }
   T0=$(date +%s)
   OUT=$(./check $ID --tier $TIER 2>&1); RC=$?
@@ -23,7 +26,14 @@ for s in $SEEDS; do
   WHY=$(echo "$OUT" | grep -m1 "^  why:" | cut -c1-300 | sed 's/"/\\"/g; s/\\x/\\\\x/g')
   case $RC in 1) RES=detected;; 0) RES=missed;; *) RES=harness-error;; esac
   printf '{"seed": "%s", "check": "%s", "tier": "%s", "result": "%s", "seconds": %d, "repo_head": "%s", "first_reason": "%s"}\n' \
-    "$s" "$ID" "$TIER" "$RES" $((T1-T0)) "$(git -C /repo rev-parse --short HEAD)" "$WHY" > $d/detection.json
+    "$s" "$ID" "$TIER" "$RES" $((T1-T0)) "$(git -C /repo rev-parse --short HEAD)" "$WHY" > $d/detection${CROSS:+-$ID}.json
+  # keep the (shrunk) failing case as a regression replay: it must pass on the unchanged tree and fails with this change
+  if [ "$RES" = detected ] && [ -n "${KEEP_CASES:-}" ]; then
+    f=$(ls $VERIF_NEWREPLAY_DIR/$ID/*.case 2>/dev/null | grep -v -e crash -e fuzz | head -1)
+    [ -z "$f" ] && f=$(ls $VERIF_NEWREPLAY_DIR/$ID/*.case 2>/dev/null | head -1)
+    if [ -n "$f" ] && ! grep -q "$WT" "$f"; then mkdir -p replays/$ID; cp "$f" replays/$ID/seed-$s.case; fi
+  fi
+  rm -rf $VERIF_NEWREPLAY_DIR/$ID
   echo "$s $ID $RES $((T1-T0))s"
 done
 git -C /repo worktree remove --force $WT >/dev/null 2>&1; rm -rf $WT $VERIF_EVIDENCE_DIR $VERIF_NEWREPLAY_DIR
